@@ -2,6 +2,8 @@
 //  shape shared  : one engine constructed first; T threads compute concurrently on it
 //  shape private : T threads each construct their own engine (concurrently) and compute with it
 //  shape mixed   : one engine constructed first; thread 0 computes on it while the others construct and use private engines
+//  shape grow    : as mixed, but the private engines are constructed with LARGER limits (angular momentum, ECP momentum) than the
+//                  engine already in use, so that anything sized by the largest request so far would be rebuilt under the reader
 // Results of every call are written (hex) so that a serial run can be compared bitwise.
 #include "vh.hpp"
 #include <thread>
@@ -36,13 +38,14 @@ int main(int argc, char** argv) {
   std::vector<std::vector<double>> res(T);
   std::vector<std::thread> th;
   std::unique_ptr<ECPIntegral> shared;
-  if (shape == "shared" || shape == "mixed" || shape == "serial") shared.reset(new ECPIntegral(w.maxl, w.maxlu, 2));
+  if (shape == "shared" || shape == "mixed" || shape == "grow" || shape == "serial") shared.reset(new ECPIntegral(w.maxl, w.maxlu, 2));
   if (shape == "serial") {
     for (int t = 0; t < T; t++) { if (t == 0 || true) { ECPIntegral own(w.maxl, w.maxlu, 2); compute_all(t == 0 ? *shared : own, w, reps, res[t]); } }
   } else {
     for (int t = 0; t < T; t++) th.emplace_back([&, t]() {
       gate.fetch_add(1); while (gate.load() < T) { }
-      if (shape == "shared" || (shape == "mixed" && t == 0)) compute_all(*shared, w, reps, res[t]);
+      if (shape == "shared" || ((shape == "mixed" || shape == "grow") && t == 0)) compute_all(*shared, w, reps, res[t]);
+      else if (shape == "grow") { ECPIntegral own(std::min(w.maxl + 1, LIBECPINT_MAX_L - 2), std::min(w.maxlu + 1 + (t % 2), LIBECPINT_MAX_L), 2); compute_all(own, w, reps, res[t]); }
       else { ECPIntegral own(w.maxl, w.maxlu, 2); compute_all(own, w, reps, res[t]); }
     });
     for (auto& x : th) x.join();
